@@ -263,7 +263,7 @@ def elementwise(F, t, value, S, x="x"):
 def as_closure(F, tracer, c):
     """a closure value as stored inside an atom (its key: ('closure', def path)) -> an applicable closure value again"""
     if isinstance(c, tuple) and c and c[0] == "closure" and isinstance(c[1], str):
-        node = F.closures.get(c[1])
+        node = getattr(tracer, "closure_nodes", {}).get(c[1]) or F.closures.get(c[1]) or F.closures.get(c[1].split("@")[0])
         if node is None:
             raise Unsupported("closure %s not found" % c[1])
         return ("closure", node, dict(getattr(tracer, "closure_envs", {}).get(c[1], {})))
